@@ -59,26 +59,36 @@ KEEPMT.__gc = function(o) hgc(o.id); saved[o.id] = o end
 function mk(id) local t = setmetatable({id = id}, GCMT); hmark(id, 1); return t end
 function mkraise(id) local t = setmetatable({id = id}, RAISEMT); hmark(id, 1); return t end
 function mkkeep(id) local t = setmetatable({id = id}, KEEPMT); hmark(id, 1); return t end
-function remark(t) setmetatable(t, GCMT); hmark(t.id, 1); return t end
+-- owner: the value is already looked after by the owner-th enclosing context that has its own pool (nil: mark in the current one)
+function remark(t, owner) setmetatable(t, GCMT); hmark(t.id, 1, owner); return t end
 -- releasable userdata made by Go: kind = "gc" (metatable with __gc), "plain" (metatable without), "nometa" (no metatable)
 function mkres(id, kind) if kind == "gc" then return newres(id, RESMT) elseif kind == "plain" then return newres(id, {}) else return newres(id, nil) end end
+-- a finaliser that tries something an iosafe context forbids: opening a file for writing
+local EVILMT = {}
+EVILMT.__gc = function(o)
+  hgc(o.id)
+  local ok, f = pcall(io.open, EVILPATH, "w")
+  if ok and f then f:write("x"); f:close(); hnote("gc-escaped") else hnote("gc-refused") end
+end
+function mkevil(id) local t = setmetatable({id = id}, EVILMT); hmark(id, 1); return t end
 function spin() local i = 0 while true do i = i + 1 end end
 function memhog() local t = {} while true do t[#t + 1] = ("x"):rep(4096) .. #t end end
 local depth = 0
 -- a killed inner context charges its parent: give every level a tenth of its parent's budget
 local cpubudget = {3000000, 300000, 30000}
 local membudget = {8000000, 800000, 80000}
--- lims: which hard limits the context has, a non-empty subset of "cmt" (cpu, memory, millis); ANY of them
--- gives the context its own pool
-function ctx(body, how, lims)
-  lims = lims or "c"
+-- lims: which hard limits the context has, a subset of "cmt" (cpu, memory, millis); flags: required compliance
+-- flags, e.g. "iosafe" or "cpusafe iosafe" (nil: none).  ANY limit and ANY required flag gives the context its
+-- own pool.
+function ctx(body, how, lims, flags)
+  lims = lims or (flags and "" or "c")
   hctx("B:0")
   depth = depth + 1
   local kill = {}
   if lims:find("c") then kill.cpu = cpubudget[depth] end
   if lims:find("m") then kill.memory = membudget[depth] end
   if lims:find("t") then kill.millis = 20000 end
-  local c = runtime.callcontext({kill = kill}, function()
+  local c = runtime.callcontext({kill = kill, flags = flags}, function()
     body()
     if how == "error" then hctx("Q"); error("boom") end
     if how == "killed" then if kill.cpu then spin() else memhog() end end
@@ -103,10 +113,15 @@ func newLuaRun() *luaRun {
 		x.tok(fmt.Sprintf("G:%d@%d", n, rt.VerifGCContextDepth(t.Runtime)))
 		return c.Next(), nil
 	})
-	set("hmark", 2, func(t *rt.Thread, c *rt.GoCont) (rt.Cont, error) {
+	set("hmark", 3, func(t *rt.Thread, c *rt.GoCont) (rt.Cont, error) {
 		n, _ := c.IntArg(0)
 		f, _ := c.IntArg(1)
-		x.tok(fmt.Sprintf("M:%d:%d", n, f))
+		if c.NArgs() > 2 && !c.Arg(2).IsNil() {
+			o, _ := c.IntArg(2)
+			x.tok(fmt.Sprintf("M:%d:%d:%d", n, f, o))
+		} else {
+			x.tok(fmt.Sprintf("M:%d:%d", n, f))
+		}
 		return c.Next(), nil
 	})
 	set("hctx", 1, func(t *rt.Thread, c *rt.GoCont) (rt.Cont, error) {
@@ -134,6 +149,11 @@ func newLuaRun() *luaRun {
 		// token first: NewUserDataValue marks
 		x.tok(fmt.Sprintf("M:%d:%d", n, flags))
 		return c.PushingNext1(t.Runtime, t.NewUserDataValue(&luaRes{id: int(n), x: x}, meta)), nil
+	})
+	set("hnote", 1, func(t *rt.Thread, c *rt.GoCont) (rt.Cont, error) {
+		s, _ := c.StringArg(0)
+		x.tok("N:" + s)
+		return c.Next(), nil
 	})
 	set("hstep", 0, func(t *rt.Thread, c *rt.GoCont) (rt.Cont, error) { return c.Next(), nil })
 	set("gcwait", 0, func(t *rt.Thread, c *rt.GoCont) (rt.Cont, error) {
@@ -210,13 +230,17 @@ func genLuaScript(rng *hlib.Rng) string {
 				b.WriteString("gcwait()\n") // Go finalisers queued, no step guaranteed before what follows
 			case c < 100 && depth < 2:
 				how := []string{"done", "error", "killed"}[rng.Below(3)]
-				lims := []string{"c", "m", "t", "cm", "ct", "mt", "cmt"}[rng.Below(7)]
-				if lims == "t" && how == "killed" {
+				lims := []string{"c", "m", "t", "cm", "ct", "mt", "cmt", "", "", ""}[rng.Below(10)]
+				flags := "nil"
+				if lims == "" || rng.Chance(25) {
+					flags = []string{`"iosafe"`, `"cpusafe"`, `"memsafe timesafe"`, `"cpusafe iosafe"`}[rng.Below(4)]
+				}
+				if (lims == "t" || lims == "") && how == "killed" {
 					how = "done" // nothing to exhaust quickly
 				}
 				b.WriteString("ctx(function()\n")
 				emit(depth+1, 1+rng.Below(4))
-				fmt.Fprintf(&b, "end, %q, %q)\n", how, lims)
+				fmt.Fprintf(&b, "end, %q, %q, %s)\n", how, lims, flags)
 				// values marked in that context's pool must not be re-marked in another pool (the real
 				// runtime.SetFinalizer would throw and take the harness down; see `crash`)
 				fmt.Fprintf(&b, "keep%d = nil keepres%d = nil\n", depth+1, depth+1)
@@ -253,12 +277,24 @@ var fixedLua = map[string]string{
 	// finalisers that raise do not stop the others: first / middle / last of a batch; at close, at a context's end, at a step
 	"raise-close":   `a = mkraise(1) b = mk(2) c = mkraise(3) d = mk(4) e = mkraise(5)`,
 	"raise-ctx-end": `ctx(function() a = mk(1) b = mkraise(2) c = mk(3) end, "done", "c") ctx(function() d = mkraise(4) e = mk(5) end, "error", "m")`,
-	"raise-step":    `mk(1) mkraise(2) mk(3) mkraise(4) gcwait() collectgarbage() gcwait() collectgarbage()`,
+	// a value belongs to the context in which it was first marked: re-marked inside a nested context it stays with
+	// its owner (not finalised at the inner end); escaped from an ended context and re-marked, it is finalised again
+	"remark-outer-inside": `t = mk(1) ctx(function() remark(t, 1) ctx(function() remark(t, 2) end, "done", "m") end, "done", "c") t = nil gcwait() collectgarbage()`,
+	"remark-escaped":      `ctx(function() u = mk(1) end, "done", "c") remark(u) ctx(function() v = mk(2) end, "killed", "c") remark(v)`,
+	// contexts that only REQUIRE FLAGS own a pool too: a finaliser set inside runs inside, by the context's end,
+	// under its restrictions (io.open is refused in an iosafe context), never later outside it
+	"flags-iosafe":       `ctx(function() mkevil(1) k2 = mkevil(2) end, "done", nil, "iosafe") gcwait() collectgarbage() gcwait() collectgarbage()`,
+	"flags-iosafe-error": `ctx(function() k1 = mkevil(1) end, "error", nil, "iosafe") k1 = nil gcwait() collectgarbage()`,
+	"flags-cpusafe":      `ctx(function() mk(1) k2 = mkres(2, "gc") mkres(3, "nometa") end, "done", nil, "cpusafe") gcwait() collectgarbage()`,
+	"flags-combination":  `ctx(function() mkevil(1) ctx(function() k2 = mkevil(2) end, "done", "m", "memsafe") k3 = mkres(3, "plain") end, "done", nil, "cpusafe iosafe")`,
+	"flags-and-limit":    `ctx(function() mkevil(1) k2 = mkres(2, "nometa") end, "killed", "c", "iosafe")`,
+	"raise-step":         `mk(1) mkraise(2) mk(3) mkraise(4) gcwait() collectgarbage() gcwait() collectgarbage()`,
 }
 
 var fixedOrder = []string{"close-order", "pending", "gc-before-close", "gc-before-context-end", "killed", "error", "nested", "resurrect",
 	"ctx-memory-only", "ctx-millis-only", "ctx-memory-killed", "ctx-all-limits", "res-nometa", "res-nometa-ctx",
-	"raise-close", "raise-ctx-end", "raise-step"}
+	"raise-close", "raise-ctx-end", "raise-step", "remark-outer-inside", "remark-escaped",
+	"flags-iosafe", "flags-iosafe-error", "flags-cpusafe", "flags-combination", "flags-and-limit"}
 
 func runLuaScenario(name string, seed uint64, verbose bool) string {
 	var src string
@@ -274,6 +310,11 @@ func runLuaScenario(name string, seed uint64, verbose bool) string {
 	// happen at random.
 	debug.SetGCPercent(-1)
 	x := newLuaRun()
+	// where the `mkevil` finalisers try to create a file (forbidden inside an iosafe context)
+	evilDir, _ := ioutil.TempDir("", "c18evil")
+	defer os.RemoveAll(evilDir)
+	evilPath := filepath.Join(evilDir, "escaped.txt")
+	x.r.GlobalEnv().Set(rt.StringValue("EVILPATH"), rt.StringValue(evilPath))
 	st := x.run(src)
 	gcb := 0
 	if name == "gc-before-close" || (name == "random" && seed%3 == 0) {
@@ -281,6 +322,9 @@ func runLuaScenario(name string, seed uint64, verbose bool) string {
 		gcb = 1
 	}
 	x.close()
+	if _, err := os.Stat(evilPath); err == nil {
+		x.toks = append(x.toks, "N:file-exists")
+	}
 	if verbose {
 		fmt.Fprintln(os.Stderr, src)
 	}
